@@ -94,6 +94,13 @@ def gen_C02(r, n):
             b = fp.any_f64(r, finite=True)
         for op in ('new_add', 'new_sub', 'new_mul'):
             c.add('TwoFloat.%s %s %s' % (op, hx(a), hx(b)), op=op)
+        # exponent gaps around the absorption boundary (52..56 binades), power-of-two and all-ones significands, both signs
+        ea = r.rng(-960, 1020)
+        pa = r.choice([math.ldexp(1.0, ea), math.ldexp(1.0, ea) * (2 - 2.0 ** -52), fp.mant_exp(r, ea, 0)]) * r.choice([1, -1])
+        pb = fp.mant_exp(r, max(-1074, ea - r.rng(50, 57)))
+        for (u_, v_) in ((pa, pb), (pb, pa)):
+            for op in ('new_add', 'new_sub'):
+                c.add('TwoFloat.%s %s %s' % (op, hx(u_), hx(v_)), op=op)
         if r.below(2) == 0:
             k1 = r.rng(1, 52)
             sa, sb = short_sig(r, k1, -400, 400), short_sig(r, max(1, min(53, 53 - k1 + r.rng(-2, 3))), -400, 400)
@@ -848,22 +855,22 @@ def chk_roundtrip_C09(c2, ans):
 ARITH = r'^arithmetic\.impl_(%s)'
 PROPS = {
     'C02': dict(roots=[r'^TwoFloat\.new_(add|sub|mul|div)$', r'^TwoFloat\.from_f64$', r'^convert\.impl_From_f64_for_TwoFloat'],
-                gen=gen_C02, chk=chk_C02, n_quick=1500, n_thorough=60000),
+                gen=gen_C02, chk=chk_C02, n_quick=4000, n_thorough=60000),
     'C03': dict(roots=[ARITH % 'Add|Sub|AddAssign|SubAssign'], extra_roots=[r'^iter\.impl_Sum'],
-                gen=gen_C03, chk=chk_C03, n_quick=1200, n_thorough=50000),
-    'C04': dict(roots=[ARITH % 'Mul|MulAssign'], gen=gen_C04, chk=chk_C04, n_quick=500, n_thorough=20000),
-    'C05': dict(roots=[ARITH % 'Div|DivAssign', r'^TwoFloat\.recip$'], gen=gen_C05, chk=chk_C05, n_quick=500, n_thorough=20000),
+                gen=gen_C03, chk=chk_C03, n_quick=3000, n_thorough=50000),
+    'C04': dict(roots=[ARITH % 'Mul|MulAssign'], gen=gen_C04, chk=chk_C04, n_quick=1500, n_thorough=20000),
+    'C05': dict(roots=[ARITH % 'Div|DivAssign', r'^TwoFloat\.recip$'], gen=gen_C05, chk=chk_C05, n_quick=1500, n_thorough=20000),
     'C06': dict(roots=[r'^base\.impl_Partial(Eq|Ord)', r'^TwoFloat\.(min|max|abs|is_sign_negative|is_sign_positive|signum|copysign|is_valid)$'],
-                gen=gen_C06, chk=chk_C06, n_quick=600, n_thorough=30000),
+                gen=gen_C06, chk=chk_C06, n_quick=1500, n_thorough=30000),
     'C07': dict(roots=[r'^base\.no_overlap$', r'^TwoFloat\.is_valid$', r'^convert\.impl_TryFrom_(tup_f64_f64|arr2_f64)_for_TwoFloat',
                        r'^convert\.impl_From_r?TwoFloat_for_(tup_f64_f64|arr2_f64)'],
                 gen=gen_C07, chk=chk_C07, n_quick=600, n_thorough=20000, gen_tier=True),
     'C08': dict(roots=[r'^TwoFloat\.(floor|ceil|trunc|round|fract)$', r'^num_integration\.impl_Float(Core)?_for_TwoFloat\.(floor|ceil|trunc|round|fract)$'],
-                gen=gen_C08, chk=chk_C08, n_quick=2500, n_thorough=100000),
+                gen=gen_C08, chk=chk_C08, n_quick=6000, n_thorough=100000),
     'C09': dict(roots=[r'^convert\.impl_(From|TryFrom)_', r'^num_integration\.impl_(FromPrimitive|ToPrimitive)_for_TwoFloat'],
-                gen=gen_C09, chk=chk_C09, n_quick=150, n_thorough=4000, gen_tier=True,
+                gen=gen_C09, chk=chk_C09, n_quick=300, n_thorough=4000, gen_tier=True,
                 followups=[(roundtrip_C09, chk_roundtrip_C09)]),
-    'C19': dict(roots=[ARITH % 'Rem|RemAssign', r'^TwoFloat\.(div_euclid|rem_euclid)$'], gen=gen_C19, chk=chk_C19, n_quick=700, n_thorough=30000),
+    'C19': dict(roots=[ARITH % 'Rem|RemAssign', r'^TwoFloat\.(div_euclid|rem_euclid)$'], gen=gen_C19, chk=chk_C19, n_quick=1500, n_thorough=30000),
 }
 
 # ================================================================================================ C01
@@ -946,7 +953,7 @@ def chain_C01(c, ans):
     c2 = gen_C01(r, max(600, len(c.lines) // 2), pool)
     return c2
 
-PROPS['C01'] = dict(roots=[r'.'], gen=gen_C01, chk=chk_C01, n_quick=6000, n_thorough=150000,
+PROPS['C01'] = dict(roots=[r'.'], gen=gen_C01, chk=chk_C01, n_quick=12000, n_thorough=150000,
                     followups=[(chain_C01, chk_C01, True), (chain_C01, chk_C01, True), (chain_C01, chk_C01, True)])
 
 # ================================================================================================ C10
@@ -1194,6 +1201,18 @@ def gen_C11(r, n):
         c.add('TwoFloat.new_div %s %s' % (hx(a), hx(b)), kind='fma')
         t = tf_in(r, max(-1000, ea - 2), min(1000, ea + 2))
         c.add('%s %s %s' % (TF_('Mul'), w2(t), hx(b)), kind='fma')
+        # fma(lo, rhs, cl1) with |lo*rhs| within a few binades of ulp(cl1)/2: the product is (nearly) absorbed by the addend
+        # (cl1, the error term of hi*rhs, is ~2^-53|hi*rhs|, so lo sits ~106 binades below hi); short significands make cl1 a power of two
+        for _ in range(2):
+            eh = r.rng(-400, 400)
+            hh = fp.mant_exp(r, eh) if r.below(2) else short_sig(r, r.rng(20, 40), eh, eh + 53)
+            ll = fp.mant_exp(r, math.frexp(hh)[1] - 1 - 106 + r.rng(-4, 4))
+            bb = fp.mant_exp(r, r.rng(-3, 3)) if r.below(2) else short_sig(r, r.rng(20, 40), -40, 41)
+            if fp.is_valid(hh, ll):
+                c.add('%s %s %s' % (TF_('Mul'), w2((hh, ll)), hx(bb)), kind='fma')
+                c.add('%s %s %s' % (FT('Mul'), hx(bb), w2((hh, ll))), kind='fma')
+                c.add('%s %s %s' % (TT('Mul'), w2((hh, ll)), w2((bb, 0.0))), kind='fma')
+                c.add('%s %s %s' % (TF_('Div'), w2((hh, ll)), hx(bb)), kind='fma')
         t2 = tf_in(r, -500, 500)
         c.add('%s %s %s' % (TT('Mul'), w2(t), w2(t2)), kind='fma')
         c.add('%s %s %s' % (TT('Div'), w2(t), w2(t2)), kind='fma')
